@@ -124,7 +124,7 @@ def stepSt (d : DSt) : List String → DSt × String
     | none => (d, "bad-op")
   | ["tjump", n] =>   -- n stamps are drawn (and dropped) by somebody else in the process
     match n.toNat? with
-    | some n => ({ d with s := { d.s with counter := d.s.counter + n }, ss := { d.ss with counter := d.ss.counter + n } }, "ok")
+    | some n => ({ d with s := jump d.s n, ss := { d.ss with counter := d.ss.counter + n } }, "ok")
     | none => (d, "bad-op")
   | ["tval", k] =>
     match slot k with
